@@ -12,7 +12,8 @@ from ..oracles import angle_ref as AR
 RULE = ("(i) the lattice of whole arc-seconds 0..359 59 59, both signs, as source value in all nine notations, through every "
         "direct function and object method (complete in the thorough tier, every 40th second + all minute/degree boundaries in "
         "quick); (ii) fractional seconds to 1e-9\", values k x 1e-9\" either side of second / minute / degree boundaries, random reals "
-        "in [-720, 720]; (iii) random chains of up to 3 conversions from every notation; (iv) invalid HP values; every case is "
+        "in [-720, 720]; (iii) random chains of up to 3 conversions from every notation; (iv) invalid HP values (scalar, object and vectorised conversion); numbers also as numpy float64 / ints, DMS / DDM objects "
+        "through every documented way of giving the sign (flag, signed leading field, -0.0 degree, string); every case is "
         "non-trivial; distinct = distinct (value, notation, chain)")
 ASSUMPTIONS = ["HP floats are read by their decimal rendering to 13 places, 12 from 512 degrees (a double cannot hold a 13th place "
                "there: ulp 1.1e-13); HP literals are generated with 13 decimals below 512 degrees and 12 above",
